@@ -668,9 +668,7 @@ class Class(Node):
                         if "*" in self.imports:
                             c = None
                             for package_ref in self.imports["*"].components:
-                                imported_comp_ref = package_ref.concatenate(
-                                    ComponentRef(name=component_ref.name)
-                                )
+                                imported_comp_ref = package_ref.concatenate(component_ref)
                                 # Search within the package
                                 try:
                                     # Avoid infinite recursion with search_imports = False
@@ -678,8 +676,7 @@ class Class(Node):
                                 except (KeyError, ClassNotFoundError):
                                     pass
                             if c is not None:
-                                # Store result for next lookup
-                                self.imports[component_ref.name] = imported_comp_ref
+                                # N.B. A lookup must not change the tree, so the result is not stored
                                 return c
                             else:
                                 raise ClassNotFoundError
